@@ -17,6 +17,7 @@
 #   include <glm/gtc/type_aligned.hpp>
 #endif
 #include <climits>
+#include <csignal>
 using namespace vh;
 
 // fixed-capacity array (std::vector<bool> is a bit set and has no data())
@@ -407,7 +408,11 @@ static void aliases() {
 #endif
 }
 
+// a crash inside a GLM call of a broken tree: keep what was logged so far (the replay shows the last events), exit non-zero
+static void on_signal(int sig) { out().flush(); std::fprintf(stderr, "harness: signal %d after %llu events\n", sig, (unsigned long long)out().events); _exit(4); }
+
 static void body(int argc, char** argv) {
+    std::signal(SIGSEGV, on_signal); std::signal(SIGBUS, on_signal); std::signal(SIGABRT, on_signal); std::signal(SIGILL, on_signal);
     g_cfg = argc > 2 ? argv[2] : "default";
     bool thorough = argc > 3 && std::string(argv[3]) == "thorough";
     g_rounds = thorough ? 12 : 2;
